@@ -10,8 +10,9 @@
 From PV.Model Require Import Machine Rich Relocs Strings Iters.
 From PV.Spec Require Import Deque.
 From PV.Spec Require Runs.
-From PV.Proofs Require ItersProofs.
-Import ItersProofs.
+From PV.Model Require Import ItersMore.
+From PV.Proofs Require ItersProofs ItersMoreProofs.
+Import ItersProofs ItersMoreProofs.
 
 (* ---- RichIter: the hand-written next / nth / next_back / size_hint / count ---- *)
 
@@ -136,3 +137,209 @@ Example C18_nonvacuous :
         ONone; ONone; ONone; ONoIter; ONum 0]
   /\ m_run rich_impl_orig [(ex_words, ex_key)] ex_hist = Fault POverflow.
 Proof. exact ItersProofs.ex_run. Qed.
+
+(* ====================================================================================================
+   Iterators built from std adaptors: exports::By::iter / iter_names / iter_name_indices (and the same three on
+   Wrap<By32, By64>), resources::Directory::entries / named_entries / id_entries, IAT::iter, Desc::int, Desc::iat and
+   their format-agnostic wrappers.  Model/ItersMore.v composes them as the code does from slice::Iter, Range<u32>,
+   Zip, Map, Wrap and `impl Iterator` ([erase]); each adaptor overrides exactly the methods std overrides (Map: next,
+   next_back, size_hint; Zip: next, size_hint; Wrap: next) and inherits nth / count as the loops over its own next.
+   [prim_ok exact impl abs Inv]: next / next_back of [impl] step the sequence [abs], size_hint bounds (exact: equals)
+   its length - what an adaptor needs of the iterator it wraps.
+   ==================================================================================================== *)
+
+(* ---- the generic theorems ---- *)
+
+(* An iterator whose nth and count are the provided loops over its own next, over primitives that step the sequence
+   with an exact size hint: for EVERY history no call faults or runs out of fuel and the outputs are LITERALLY the
+   deque's (also when it is not double-ended: then next_back / len do not exist and the size hint is still exact). *)
+Theorem C18_adaptor_exact : forall (S A : Type) (impl : iter_impl S A) (abs : S -> list A) (Inv : S -> Prop) (measure : S -> nat),
+  provided_nth_count impl measure ->
+  (forall s, Inv s -> (length (abs s) <= measure s)%nat /\ N.of_nat (measure s) < W64) ->
+  prim_ok true impl abs Inv ->
+  forall hist pool, Forall Inv pool -> m_run impl pool hist = Ok (run (m_full impl) (map abs pool) hist).
+Proof. exact @ItersMoreProofs.adaptor_exact. Qed.
+Print Assumptions C18_adaptor_exact.
+
+(* the same with a size hint that is only a bound somewhere in the stack (a Wrap): a faithful forward sequence *)
+Theorem C18_adaptor_bound : forall (S A : Type) (impl : iter_impl S A) (abs : S -> list A) (Inv : S -> Prop) (measure : S -> nat),
+  provided_nth_count impl measure ->
+  (forall s, Inv s -> (length (abs s) <= measure s)%nat /\ N.of_nat (measure s) < W64) ->
+  forall e, prim_ok e impl abs Inv -> m_full impl = false ->
+  forall hist pool, Forall Inv pool ->
+  exists outs, m_run impl pool hist = Ok outs /\ Forall2 (out_ok false) (run false (map abs pool) hist) outs.
+Proof. exact @ItersMoreProofs.adaptor_bound. Qed.
+Print Assumptions C18_adaptor_bound.
+
+(* Range<u32> = the deque of the index list start, start+1, .., end-1: every method, including the overridden
+   nth (forward_checked) and count, under every history *)
+Theorem C18_range : forall hist pool, Forall range_inv pool ->
+  m_run range_impl pool hist = Ok (run true (map range_abs pool) hist).
+Proof. exact ItersMoreProofs.range_faithful. Qed.
+Print Assumptions C18_range.
+
+Theorem C18_range_primitives : prim_ok true range_impl range_abs range_inv.
+Proof. exact ItersMoreProofs.range_prim. Qed.
+Print Assumptions C18_range_primitives.
+
+(* slice::Iter (trusted: the sl_ functions of Model/Iters.v) as a primitive *)
+Theorem C18_slice_primitives : forall (B : Type), prim_ok true (@slice_impl B) (fun l => l) (fun l => lenN l < W64).
+Proof. exact @ItersMoreProofs.slice_prim. Qed.
+Print Assumptions C18_slice_primitives.
+
+(* Zip of two sequences = the sequence of the zipped prefix (as long as the SHORTER one); exact if both are *)
+Theorem C18_zip : forall (SA SB A B : Type) (a : iter_impl SA A) (b : iter_impl SB B) (measure : SA * SB -> nat)
+    (absa : SA -> list A) (absb : SB -> list B) (Inva : SA -> Prop) (Invb : SB -> Prop) (ea eb : bool),
+  prim_ok ea a absa Inva -> prim_ok eb b absb Invb ->
+  prim_ok (ea && eb) (zip_impl a b measure) (fun s => combine (absa (fst s)) (absb (snd s))) (fun s => Inva (fst s) /\ Invb (snd s)).
+Proof. exact @ItersMoreProofs.zip_prim. Qed.
+Print Assumptions C18_zip.
+
+(* Map of a sequence = the mapped sequence; double-ended / exact iff the inner iterator is *)
+Theorem C18_map : forall (S B A : Type) (inner : iter_impl S B) (f : B -> A) (measure : S -> nat) (abs : S -> list B) (Inv : S -> Prop) (e : bool),
+  prim_ok e inner abs Inv -> prim_ok e (map_impl inner f measure) (fun s => map f (abs s)) Inv.
+Proof. exact @ItersMoreProofs.map_prim. Qed.
+Print Assumptions C18_map.
+
+(* Wrap<I32, I64> of a sequence = the tagged sequence, with the provided size hint (0, None) *)
+Theorem C18_wrap_primitives : forall (S A W : Type) (e : bool) (inner : iter_impl S A) (tag : A -> W) (measure : S -> nat)
+    (abs : S -> list A) (Inv : S -> Prop),
+  prim_ok e inner abs Inv -> prim_ok false (wrap_impl inner tag measure) (fun s => map tag (abs s)) Inv.
+Proof. exact @ItersMoreProofs.wrap_prim. Qed.
+Print Assumptions C18_wrap_primitives.
+
+(* ---- exports ---- *)
+
+(* By::iter (and Wrap<By>::iter): functions.iter().map(symbol_from_rva) behind `impl Iterator`: one item per entry of
+   the export address table, in order; size hints exact *)
+Theorem C18_exports_iter : forall (B A : Type) (f : B -> A) hist (pool : list (list B)), Forall (fun l => lenN l < W64) pool ->
+  m_run (exp_iter_impl f) pool hist = Ok (run false (map (map f) pool) hist).
+Proof. exact @ItersMoreProofs.exp_iter_faithful. Qed.
+Print Assumptions C18_exports_iter.
+
+(* By::iter_names: (0..names.len() as u32).map(..): one item per entry of the NAME table (whatever the length of the
+   name index table), the item of hint h being g h *)
+Theorem C18_exports_iter_names : forall (R A : Type) (g : N -> A) (names : list R) hist, lenN names < W32 ->
+  m_run (exp_names_impl g) [exp_names_start names] hist = Ok (run false [map g (nseq 0 (length names))] hist).
+Proof. exact @ItersMoreProofs.exp_names_faithful. Qed.
+Print Assumptions C18_exports_iter_names.
+
+(* By::iter_name_indices: (0..names.len() as u32).zip(name_indices.iter()).map(..): the hints paired with the name
+   indices, as many as the SHORTER of the two tables *)
+Theorem C18_exports_iter_name_indices : forall (R I A : Type) (g : N * I -> A) (names : list R) (idx : list I) hist,
+  lenN names < W32 -> lenN idx < W64 ->
+  m_run (exp_nidx_impl g) [exp_nidx_start names idx] hist = Ok (run false [map g (combine (nseq 0 (length names)) idx)] hist).
+Proof. exact @ItersMoreProofs.exp_nidx_faithful. Qed.
+Print Assumptions C18_exports_iter_name_indices.
+
+Theorem C18_exports_iter_name_indices_length : forall (I : Type) n (idx : list I),
+  lenN (combine (nseq 0 n) idx) = N.min (N.of_nat n) (lenN idx).
+Proof. exact @ItersMoreProofs.nidx_length. Qed.
+Print Assumptions C18_exports_iter_name_indices_length.
+
+(* the i-th item pairs hint i with the i-th name index *)
+Theorem C18_exports_iter_name_indices_item : forall (I : Type) (idx : list I) n a i h x,
+  nth_error (combine (nseq a n) idx) i = Some (h, x) -> h = a + N.of_nat i /\ nth_error idx i = Some x /\ (i < n)%nat.
+Proof. exact @ItersMoreProofs.nidx_item. Qed.
+Print Assumptions C18_exports_iter_name_indices_item.
+
+Theorem C18_exports_iter_name_indices_no_fault : forall (R I A : Type) (g : N * I -> A) (names : list R) (idx : list I) hist,
+  lenN names < W32 -> lenN idx < W64 -> no_fault (m_run (exp_nidx_impl g) [exp_nidx_start names idx] hist).
+Proof. exact @ItersMoreProofs.exp_nidx_no_fault. Qed.
+Print Assumptions C18_exports_iter_name_indices_no_fault.
+
+(* F7 seen through the iterator: iter_name_indices as it stood indexed name_indices[hint] for every hint below
+   names.len() and panicked on a null name index table; the repaired composition answers none *)
+Theorem C18_F7_iter_name_indices_orig_refuted :
+  exp_nidx_next_orig 0 (fun p : N * N => p) [] (exp_names_start [10]) = Fault PIndex /\
+  m_run (exp_nidx_impl (fun p : N * N => p)) [exp_nidx_start [10] []] [(0%nat, Next); (0%nat, SizeHint)] = Ok [ONone; OHint 0 (Some 0)].
+Proof. exact ItersMoreProofs.nidx_orig_refuted. Qed.
+Print Assumptions C18_F7_iter_name_indices_orig_refuted.
+
+(* ---- resource directories, IAT::iter, Desc::int, Desc::iat ---- *)
+
+(* Entries = Map<slice::Iter, F> (Directory::entries / named_entries / id_entries; also IAT::iter and Desc::int):
+   double-ended and exact-size; under every history literally the deque of the mapped slice *)
+Theorem C18_entries : forall (B A : Type) (f : B -> A) hist (pool : list (list B)), Forall (fun l => lenN l < W64) pool ->
+  m_run (entries_impl f) pool hist = Ok (run true (map (map f) pool) hist).
+Proof. exact @ItersMoreProofs.entries_faithful. Qed.
+Print Assumptions C18_entries.
+
+(* the three slices of a directory's entry array: named entries first, id entries after them, together all entries *)
+Theorem C18_resource_slices : forall (B : Type) nn ni (arr : list B),
+  res_named nn ni arr ++ res_id nn ni arr = res_all nn ni arr /\
+  (nn + ni <= lenN arr -> lenN (res_named nn ni arr) = nn /\ lenN (res_id nn ni arr) = ni /\ lenN (res_all nn ni arr) = nn + ni).
+Proof. exact @ItersMoreProofs.res_slices. Qed.
+Print Assumptions C18_resource_slices.
+
+(* Desc::iat hands out the slice::Iter itself *)
+Theorem C18_slice_iter : forall (B : Type) hist (pool : list (list B)), m_run slice_impl pool hist = Ok (run true pool hist).
+Proof. exact @ItersMoreProofs.slice_faithful. Qed.
+Print Assumptions C18_slice_iter.
+
+(* ---- the format-agnostic wrappers ---- *)
+
+(* Wrap<IAT32, IAT64>::iter = Wrap over Map<slice::Iter> *)
+Theorem C18_wrap_iat_iter : forall (B A W : Type) (f : B -> A) (tag : A -> W) hist (pool : list (list B)), Forall (fun l => lenN l < W64) pool ->
+  exists outs, m_run (wrap_entries_impl f tag) pool hist = Ok outs /\
+               Forall2 (out_ok false) (run false (map (fun l => map tag (map f l)) pool) hist) outs.
+Proof. exact @ItersMoreProofs.wrap_entries_faithful. Qed.
+Print Assumptions C18_wrap_iat_iter.
+
+(* Wrap<Desc32, Desc64>::iat = Wrap over slice::Iter *)
+Theorem C18_wrap_desc_iat : forall (B W : Type) (tag : B -> W) hist (pool : list (list B)), Forall (fun l => lenN l < W64) pool ->
+  exists outs, m_run (wrap_slice_impl tag) pool hist = Ok outs /\
+               Forall2 (out_ok false) (run false (map (map tag) pool) hist) outs.
+Proof. exact @ItersMoreProofs.wrap_slice_faithful. Qed.
+Print Assumptions C18_wrap_desc_iat.
+
+(* Wrap<Desc32, Desc64>::int = Map over Wrap over Map<slice::Iter> *)
+Theorem C18_wrap_desc_int : forall (B A W X : Type) (f : B -> A) (tag : A -> W) (into : W -> X) hist (pool : list (list B)),
+  Forall (fun l => lenN l < W64) pool ->
+  exists outs, m_run (wrap_int_impl f tag into) pool hist = Ok outs /\
+               Forall2 (out_ok false) (run false (map (fun l => map into (map tag (map f l))) pool) hist) outs.
+Proof. exact @ItersMoreProofs.wrap_int_faithful. Qed.
+Print Assumptions C18_wrap_desc_int.
+
+(* ---- Resources::icons / cursors: FlatMap over result::IntoIter of Entries ---- *)
+
+(* FlatMap over an outer iterator of at most one item (never used from the back): the items of the current inner
+   iterator followed by those of the item not yet taken; the size hint is a valid bound (open above while the outer
+   item is not yet taken) *)
+Theorem C18_flat_map : forall (S X A : Type) (inner : iter_impl S A) (mk : X -> S) (measure : option S * option X -> nat)
+    (absi : S -> list A) (Invi : S -> Prop) (e : bool),
+  prim_ok e inner absi Invi ->
+  prim_ok false (flat_impl inner mk measure)
+    (fun s => (match fst s with Some si => absi si | None => [] end) ++ (match snd s with Some x => absi (mk x) | None => [] end))
+    (fun s => (match fst s with Some si => Invi si | None => True end) /\ (match snd s with Some x => Invi (mk x) | None => True end)).
+Proof. exact @ItersMoreProofs.flat_prim. Qed.
+Print Assumptions C18_flat_map.
+
+(* the iterator icons() / cursors() hands out: every entry of the group directory in order if there is such a
+   directory, nothing otherwise - under every history *)
+Theorem C18_resource_icons : forall (B A : Type) (f : B -> A) (group_dir : option (list B)) hist,
+  (match group_dir with Some l => lenN l < W63 | None => True end) ->
+  exists outs, m_run (icons_impl f) [icons_start group_dir] hist = Ok outs /\
+               Forall2 (out_ok false) (run false [match group_dir with Some l => map f l | None => [] end] hist) outs.
+Proof. exact @ItersMoreProofs.icons_start_faithful. Qed.
+Print Assumptions C18_resource_icons.
+
+Example C18_nonvacuous_icons :
+  m_run (icons_impl (fun x : N => x + 100)) [icons_start (Some [1; 2; 3])]
+        [(0%nat, SizeHint); (0%nat, Next); (0%nat, SizeHint); (0%nat, Clone); (0%nat, Nth 5); (1%nat, Count); (1%nat, Next); (0%nat, SizeHint)]
+  = Ok [OHint 0 None; OItem 101; OHint 2 (Some 2); OCloned; ONone; ONum 2; OItem 102; OHint 0 (Some 0)]
+  /\ m_run (icons_impl (fun x : N => x + 100)) [icons_start None] [(0%nat, SizeHint); (0%nat, Next); (0%nat, Count)]
+     = Ok [OHint 0 (Some 0); ONone; ONum 0].
+Proof. exact ItersMoreProofs.ex_icons_run. Qed.
+
+Example C18_nonvacuous_adaptors :
+  m_run (exp_nidx_impl (fun p : N * N => p)) [exp_nidx_start [10; 20; 30] [7; 9]] ex_nidx_hist
+  = Ok [OHint 2 (Some 2); OCloned; OItem (0, 7); ONone; ONone; ONum 2; OItem (1, 9); OUnsupported; OUnsupported;
+        OHint 0 (Some 0); ONoIter]
+  /\ m_run (exp_names_impl (fun h : N => h)) [exp_names_start [10; 20; 30]] [(0%nat, Nth 1); (0%nat, SizeHint); (0%nat, Next); (0%nat, Next)]
+     = Ok [OItem 1; OHint 1 (Some 1); OItem 2; ONone]
+  /\ m_run (entries_impl (fun x : N => x + 100)) [res_id 2 3 [1; 2; 3; 4; 5; 6]] [(0%nat, Len); (0%nat, NextBack); (0%nat, Nth 1); (0%nat, Next)]
+     = Ok [ONum 3; OItem 105; OItem 104; ONone]
+  /\ m_run (wrap_int_impl (fun x : N => x + 1) (fun x : N => (64, x)) (fun p : N * N => snd p)) [[1; 2; 3]] [(0%nat, SizeHint); (0%nat, Nth 2); (0%nat, Count)]
+     = Ok [OHint 0 None; OItem 4; ONum 0].
+Proof. exact ItersMoreProofs.ex_nidx_run. Qed.
